@@ -3,13 +3,17 @@ package main
 
 import (
 	"context"
+	"errors"
 	"fmt"
+	"io"
 	"sort"
 	"strings"
 	"time"
 
 	"github.com/acquirecloud/golibs/kvs"
+	kredis "github.com/acquirecloud/golibs/kvs/redis"
 	"github.com/acquirecloud/golibs/zverif/vsched"
+	"github.com/go-redis/redis/v8"
 	"verifh/internal/ev"
 	"verifh/internal/kvh"
 	"verifh/internal/sdrv"
@@ -55,6 +59,46 @@ type scen struct {
 	backend string
 	preload bool
 	progs   [][]POp
+	faults  bool // Redis: the reply to a write command (SET, SETNX, the EXEC of a transaction) may be lost after the server executed it
+}
+
+// replyLost is what the client sees when the reply to a command never arrives
+var replyLost = io.EOF
+
+// faultsOn is read by the go-redis hook of the worker threads' clients
+var faultsOn bool
+
+type lostReplyHook struct{}
+
+func (lostReplyHook) BeforeProcess(ctx context.Context, cmd redis.Cmder) (context.Context, error) {
+	return ctx, nil
+}
+func (lostReplyHook) BeforeProcessPipeline(ctx context.Context, cmds []redis.Cmder) (context.Context, error) {
+	return ctx, nil
+}
+func lose(what string) error {
+	if !faultsOn || !strings.HasPrefix(vsched.ThreadName(), "t") {
+		return nil
+	}
+	if vsched.Choose("reply-lost:"+what, 2, false) == 1 {
+		vsched.Note("%s: reply to %s lost", vsched.ThreadName(), what)
+		return replyLost
+	}
+	return nil
+}
+func (lostReplyHook) AfterProcess(ctx context.Context, cmd redis.Cmder) error {
+	if n := cmd.Name(); (n == "set" || n == "setnx") && cmd.Err() == nil {
+		return lose(n)
+	}
+	return nil
+}
+func (lostReplyHook) AfterProcessPipeline(ctx context.Context, cmds []redis.Cmder) error {
+	for _, c := range cmds {
+		if c.Name() == "exec" && c.Err() == nil {
+			return lose("exec")
+		}
+	}
+	return nil
 }
 
 func (s scen) String() string {
@@ -66,7 +110,11 @@ func (s scen) String() string {
 		}
 		ps = append(ps, strings.Join(os, ";"))
 	}
-	return fmt.Sprintf("%s preload=%v %s", s.backend, s.preload, strings.Join(ps, " || "))
+	f := ""
+	if s.faults {
+		f = " lost-replies"
+	}
+	return fmt.Sprintf("%s%s preload=%v %s", s.backend, f, s.preload, strings.Join(ps, " || "))
 }
 
 var backends = map[string]kvh.Backend{}
@@ -77,7 +125,9 @@ func backend(name string) kvh.Backend {
 	}
 	var b kvh.Backend
 	if name == "redis" {
-		b = kvh.NewRedis(true)
+		rb := kvh.NewRedis(true)
+		rb.OnNewClient = func(st kvs.Storage) { kredis.VerifAddHook(st, lostReplyHook{}) }
+		b = rb
 	} else {
 		b = kvh.NewInmem()
 	}
@@ -87,8 +137,10 @@ func backend(name string) kvh.Backend {
 
 func job(sc scen, cfg vsched.Config) sdrv.Job {
 	var h *kvh.History
+	var pending []int // writes whose reply was lost: the caller cannot know whether they took effect
 	scenario := func() {
 		h = &kvh.History{}
+		faultsOn = sc.faults
 		be := backend(sc.backend)
 		st0 := be.Fresh()
 		ctx := context.Background()
@@ -118,6 +170,19 @@ func job(sc scen, cfg vsched.Config) sdrv.Job {
 		} else {
 			v0 = "01HZZZZZZZZZZZZZZZZZZZZZZ0"
 		}
+		// writes whose reply was lost: the caller does not know whether they took effect; the value they carry tells
+		type maybeOp struct {
+			idx int
+			val string
+		}
+		var maybe []maybeOp
+		lost := func(i int, val string, err error) bool {
+			if sc.faults && errors.Is(err, replyLost) {
+				maybe = append(maybe, maybeOp{i, val})
+				return true
+			}
+			return false
+		}
 		done := make([]bool, len(sc.progs))
 		for t, prog := range sc.progs {
 			t, prog := t, prog
@@ -134,7 +199,9 @@ func job(sc scen, cfg vsched.Config) sdrv.Job {
 					case "create":
 						i := h.Begin(kvh.HOp{Thread: t, Kind: "create", Key: o.Key, Val: val})
 						ver, err := st.Create(ctx, kvs.Record{Key: o.Key, Value: []byte(val)})
-						h.End(i, "", ver, kvh.ErrClass(err))
+						if !lost(i, val, err) {
+							h.End(i, "", ver, kvh.ErrClass(err))
+						}
 						if err == nil {
 							own[o.Key] = ver
 						}
@@ -167,7 +234,9 @@ func job(sc scen, cfg vsched.Config) sdrv.Job {
 					case "put":
 						i := h.Begin(kvh.HOp{Thread: t, Kind: "put", Key: o.Key, Val: val})
 						r, err := st.Put(ctx, kvs.Record{Key: o.Key, Value: []byte(val)})
-						h.End(i, "", r.Version, kvh.ErrClass(err))
+						if !lost(i, val, err) {
+							h.End(i, "", r.Version, kvh.ErrClass(err))
+						}
 						own[o.Key] = r.Version
 						vsched.Note("t%d put(%s) -> %s %s", t, o.Key, cv(r.Version), kvh.ErrClass(err))
 					case "cas":
@@ -185,7 +254,9 @@ func job(sc scen, cfg vsched.Config) sdrv.Job {
 							outVer = r.Version
 							own[o.Key] = r.Version
 						}
-						h.End(i, "", outVer, kvh.ErrClass(err))
+						if !lost(i, val, err) {
+							h.End(i, "", outVer, kvh.ErrClass(err))
+						}
 						vsched.Note("t%d cas(%s,%s) -> %s %s", t, o.Key, cv(exp), cv(outVer), kvh.ErrClass(err))
 					case "delete":
 						i := h.Begin(kvh.HOp{Thread: t, Kind: "delete", Key: o.Key})
@@ -241,6 +312,10 @@ func job(sc scen, cfg vsched.Config) sdrv.Job {
 			h.End(i, string(r.Value), r.Version, kvh.ErrClass(err))
 			vsched.Note("final %s = %s %s %s", k, r.Value, cv(r.Version), kvh.ErrClass(err))
 		}
+		pending = nil
+		for _, m := range maybe {
+			pending = append(pending, m.idx)
+		}
 	}
 	return sdrv.Job{
 		Name: fmt.Sprintf("%s P=%d", sc, cfg.P), Cfg: cfg, Scenario: scenario,
@@ -252,6 +327,14 @@ func job(sc scen, cfg vsched.Config) sdrv.Job {
 				return x.Outcome.String(), &vsched.Violation{Sig: sc.backend + " " + x.Outcome.String(), Detail: fmt.Sprintf("threads did not finish: %v", x.Blocked)}
 			}
 			sig, det := h.Check()
+			if sig != "" && len(pending) > 0 {
+				// ... so the history is judged both ways: without them, and with them as successful writes of unknown
+				// version whose response lies after everything else (fault budget 1: at most one such write)
+				for _, i := range pending {
+					h.EndUnknownVersion(i)
+				}
+				sig, det = h.Check()
+			}
 			if sig != "" {
 				return "violation", &vsched.Violation{Sig: sc.backend + " " + sig, Detail: det + "\nscenario: " + sc.String()}
 			}
@@ -286,12 +369,13 @@ func main() {
 	fineMem := vsched.Mask(vsched.KLock, vsched.KChan, vsched.KStep, vsched.KEnv)
 	cmdOnly := vsched.Mask(vsched.KEnv)
 	full := append(append([]POp{}, alphabet...), extra...)
+	withFaults := false
 	addAll := func(be string, threads int, progs [][]POp, cfg vsched.Config, preloads []bool) {
 		var rec func(cur [][]POp)
 		rec = func(cur [][]POp) {
 			if len(cur) == threads {
 				for _, pre := range preloads {
-					jobs = append(jobs, job(scen{be, pre, append([][]POp{}, cur...)}, cfg))
+					jobs = append(jobs, job(scen{be, pre, append([][]POp{}, cur...), withFaults}, cfg))
 				}
 				return
 			}
@@ -303,6 +387,13 @@ func main() {
 	}
 	both := []bool{false, true}
 	bounds := map[string]any{}
+	// Redis with lost replies (F<=1): the reply to one write command may vanish after the server executed it; the caller
+	// then gets an error and does not know - but a call that REPORTS a documented loser outcome must have changed nothing
+	withFaults = true
+	fprogs := [][]POp{{alphabet[0]}, {alphabet[1]}, {alphabet[2]}, {alphabet[3]}, {alphabet[5]}}
+	addAll("redis", 2, fprogs, vsched.Config{P: 2, F: 1, Preempt: vsched.Mask(vsched.KEnv), MaxSteps: 3000}, both)
+	addAll("redis", 1, fprogs, vsched.Config{P: 0, F: 1, Preempt: vsched.Mask(vsched.KEnv), MaxSteps: 3000}, both)
+	withFaults = false
 	if !run.Thorough() {
 		// in-memory: 2 threads x 2 ops over the 8-op alphabet, 3 threads x 1 op over the 12-op alphabet
 		addAll("inmem", 2, progsOf(alphabet, 2), vsched.Config{P: 3, Preempt: fineMem, MaxSteps: 3000}, both)
